@@ -594,6 +594,9 @@ func (fr *Frame) modularCall(fc *FuncContract, callee *ssa.Function, c *ssa.Call
 			vc.havocHeap(st, g.heapName())
 		}
 	}
+	if len(fc.Allocates) > 0 {
+		vc.havocNewObjects(st, pre, fc, pc)
+	}
 	if !fc.Pure {
 		if callee == nil || fr.mayRunLocalClosure(c) || fr.closures[c.Value] != nil {
 			fr.havocCaptured(st, pc)
@@ -638,9 +641,11 @@ func (fr *Frame) modularCall(fc *FuncContract, callee *ssa.Function, c *ssa.Call
 	if nres == 1 {
 		post.vars["result"] = TV{res[0], sig.Results().At(0).Type()}
 	}
+	vc.atCalleeEnsures = shortCallee(fc.Name)
 	for _, e := range fc.Ensures {
 		vc.assumeClause(pc, post, e)
 	}
+	vc.atCalleeEnsures = ""
 	for _, fname := range fc.Fresh {
 		if tv, ok := post.vars[fname]; ok {
 			ref := tv.T
@@ -688,8 +693,62 @@ func calleeParamNames(fc *FuncContract, callee *ssa.Function, c *ssa.CallCommon,
 	return names
 }
 
+// havocNewObjects implements the "allocates" directive: the call creates and
+// initialises new objects. The heaps that hold objects of the listed struct
+// types ("*": every heap indexed by references) get new versions that agree
+// with the old ones on every object that existed before the call; only what
+// lies at or above the old watermark is unconstrained (to be described by the
+// callee's ensures clauses).
+func (vc *VC) havocNewObjects(st, pre *State, fc *FuncContract, pc Term) {
+	all := false
+	var prefixes []string
+	for _, a := range fc.Allocates {
+		if a == "*" {
+			all = true
+			continue
+		}
+		if !strings.Contains(a, "/") && fc.Pkg != "" {
+			a = fc.Pkg + "." + a
+		}
+		prefixes = append(prefixes, "H:"+a+".")
+	}
+	if st.wm.S == pre.wm.S {
+		vc.bumpWatermark(st)
+	}
+	for _, h := range vc.sortedHeapNames() {
+		info := vc.heapInfo[h]
+		if info == nil || !hasPrefix(info.Sort, "(Array Int ") || vc.errGlobals[h] || strings.HasPrefix(h, "|GH:") || strings.HasPrefix(h, "|G:") {
+			continue
+		}
+		match := all
+		for _, p := range prefixes {
+			if strings.HasPrefix(strings.Trim(h, "|"), p) {
+				match = true
+			}
+		}
+		if !match {
+			continue
+		}
+		old := vc.heap(pre, h, info.Sort)
+		if cur := vc.heap(st, h, info.Sort); cur.S != old.S {
+			// already given a new version by the write set: leave it
+			continue
+		}
+		vc.havocHeap(st, h)
+		vc.assume(pc, vc.frameFormula(st.heaps[h], old, h, nil, pre.wm))
+		vc.recordFrame(st.heaps[h], old, pre.wm, pc, nil)
+	}
+}
+
 func (vc *VC) specError(cl *Clause, err error) {
 	msg := fmt.Sprintf("contract error in %q: %v", cl.Src, err)
+	if strings.Contains(err.Error(), "unknown identifier") && vc.atCalleeEnsures != "" {
+		// An ensures clause of a callee that names one of the callee's own
+		// locals cannot be stated at a call site: the caller simply does not
+		// learn it (fewer assumptions: sound).
+		vc.warn("%s: clause of callee %s not usable at call sites (%v): %s", funcName(vc.fn), vc.atCalleeEnsures, err, cl.Src)
+		return
+	}
 	if strings.Contains(err.Error(), "unknown identifier") {
 		// The clause names a variable that no longer exists in the function:
 		// the proof no longer covers the code. Reported as a failed binding
